@@ -1541,6 +1541,15 @@ def _module_defs(module_name):
 def run(pids, quick=False, seed=0, verbose=True, snippets=False):
     """-> (number of mismatches, report dict)"""
     common.ensure_repo_on_path()
+    # specs with a translator module of their own (spec key `translator`) bring their own self-test: <module>_selftest.run
+    own = [p for p in pids if any(sp.get('translator') for sp in srctie_specs.SPECS.get(p, []))]
+    if own:
+        import importlib
+        tr = [sp['translator'] for sp in srctie_specs.SPECS[own[0]] if sp.get('translator')][0]
+        n_own, rep_own = importlib.import_module(tr + '_selftest').run(own, quick=quick, seed=seed, verbose=verbose)
+        pids = [p for p in pids if p not in own]
+        if not pids and not snippets:
+            return n_own, rep_own
     t0 = time.time()
     src, fns = build_driver(pids, common.REPO, snippets)
     rng = random.Random('py2lean-selftest-%d' % seed)
